@@ -1151,10 +1151,16 @@ impl<'this> InternalOptimisingLineFormatter<'this, '_> {
     }
 
     fn get_last_child_line_len(child_solutions: &[(usize, FormattingSolution)]) -> Option<u32> {
-        child_solutions
-            .last()
-            .and_then(|sln| sln.1.decisions.last())
-            .map(|decision| decision.last_line_length)
+        fn last_decision(child_solutions: &[(usize, FormattingSolution)]) -> Option<&TokenDecision> {
+            child_solutions.last()?.1.decisions.last()
+        }
+        let mut decision = last_decision(child_solutions)?;
+        // The last token of the last child line can have child lines of its own; the line that
+        // ends the whole group is then the last one of those.
+        while let Some(nested_decision) = last_decision(&decision.child_solutions) {
+            decision = nested_decision;
+        }
+        Some(decision.last_line_length)
     }
 
     fn get_multiline_token_last_line_length(&self, token_index: usize) -> Option<u32> {
